@@ -1265,3 +1265,136 @@ def gen_multitan():
 
 
 MODULES["MultiTan"] = gen_multitan
+
+
+# ------------------------------------------------------------------ entry-point plumbing (the glue around the modelled cores)
+def _calls(node, callee):
+    """unparsed Call nodes inside `node` whose function expression ends with `callee`"""
+    out = []
+    for n in ast.walk(node):
+        if isinstance(n, ast.Call):
+            f = ast.unparse(n.func)
+            if f == callee or f.endswith("." + callee):
+                out.append(" ".join(ast.unparse(n).split()))
+    return out
+
+
+def _has_kw(call_src, kw, val):
+    return re.search(r"[(, ]%s=%s[,)]" % (re.escape(kw), re.escape(val)), call_src) is not None
+
+
+def gen_plumbing():
+    """Facts about how the entry points hand their arguments to the modelled functions.  Each is an exact-shape statement about one
+    call site; when one turns false the theorems naming it stop checking and the harness searches the workflow for a failing input."""
+    out = HEADER.format(src="toasty/builder.py, cli.py, fits_tiler.py, multi_tan.py, multi_wcs.py, pyramid.py, toast.py, collection.py, pipeline/cli.py") + "namespace Gen\nnamespace Plumbing\n\n"
+    facts = []
+
+    def fact(name, doc, ok):
+        facts.append((name, doc, bool(ok)))
+    # Builder.toast_base: both branches pass the coordinate system it resolved
+    b = parse("toasty/builder.py")
+    tb = find_def(b, "Builder.toast_base")
+    c1, c2 = _calls(tb, "sample_layer_filtered"), _calls(tb, "sample_layer")
+    fact("builder_toast_base_forwards_coordsys", "`Builder.toast_base` passes `coordsys=coordsys` to `sample_layer_filtered` and to `sample_layer`, and resolves it once from `is_planet` / an explicit keyword",
+         len(c1) == 1 and len(c2) == 1 and _has_kw(c1[0], "coordsys", "coordsys") and _has_kw(c2[0], "coordsys", "coordsys")
+         and "coordsys = kwargs.pop('coordsys', coordsys)" in ast.unparse(tb) and ast.unparse(tb).count("ToastCoordinateSystem.PLANETARY if is_planet else ToastCoordinateSystem.ASTRONOMICAL") == 1)
+    es = find_def(b, "Builder.execute_study_tiling")
+    fact("builder_execute_uses_given_tiling", "`Builder.execute_study_tiling(image, tiling)` tiles with the tiling it is given: `tiling.tile_image(image, self.pio, **kwargs)`",
+         _calls(es, "tile_image") == ["tiling.tile_image(image, self.pio, **kwargs)"])
+    # toast.py
+    t = parse("toasty/toast.py")
+    slf = find_def(t, "sample_layer_filtered")
+    cp, cs_ = _calls(slf, "new_toast_filtered"), _calls(slf, "ToastSampler")
+    fact("sample_layer_filtered_forwards_coordsys", "`sample_layer_filtered` builds the pyramid it walks and its sampler object with the caller's `coordsys`",
+         len(cp) == 1 and _has_kw(cp[0], "coordsys", "coordsys") and len(cs_) == 1 and _has_kw(cs_[0], "coordsys", "coordsys"))
+    sl = find_def(t, "sample_layer")
+    cp2, cs2 = _calls(sl, "new_toast"), _calls(sl, "ToastSampler")
+    fact("sample_layer_forwards_coordsys", "`sample_layer` builds its pyramid and its sampler object with the caller's `coordsys`",
+         len(cp2) == 1 and _has_kw(cp2[0], "coordsys", "coordsys") and len(cs2) == 1 and _has_kw(cs2[0], "coordsys", "coordsys"))
+    pfp = find_def(t, "toast_pixel_for_point")
+    ctf = _calls(pfp, "toast_tile_for_point")
+    fact("pixel_lookup_forwards_coordsys", "`toast_pixel_for_point` finds its tile with `toast_tile_for_point(depth, lat, lon, coordsys=coordsys)`",
+         ctf == ["toast_tile_for_point(depth, lat, lon, coordsys=coordsys)"])
+    # pyramid.py
+    p = parse("toasty/pyramid.py")
+    gen = find_def(p, "Pyramid._generator")
+    g1, g2 = _calls(gen, "generate_tiles_filtered"), _calls(gen, "generate_tiles")
+    fact("pyramid_generator_forwards_coordsys", "`Pyramid._generator` enumerates TOAST tiles in the pyramid's own coordinate system on both its branches",
+         len(g1) == 1 and len(g2) == 1 and _has_kw(g1[0], "coordsys", "self._coordsys") and _has_kw(g2[0], "coordsys", "self._coordsys"))
+    ui = find_def(p, "PyramidIO.update_image")
+    wi = _calls(ui, "write_image")
+    fact("update_image_writes_back_plainly", "`update_image` writes the yielded image back with `self.write_image(pos, img, format=format or self._default_format)` — no mode conversion, no stale data range",
+         wi == ["self.write_image(pos, img, format=format or self._default_format)"])
+    vl = find_def(p, "Pyramid.visit_leaves")
+    cv = _calls(vl, "_visit_leaves_parallel")
+    fact("visit_leaves_hands_resolved_parallelism", "`Pyramid.visit_leaves` hands the resolved worker count itself to `_visit_leaves_parallel`",
+         len(cv) == 1 and re.search(r"\bparallel\b", cv[0]) is not None and "min(" not in ast.unparse(vl) and "//" not in ast.unparse(vl))
+    # multi_tan / multi_wcs
+    mt = parse("toasty/multi_tan.py")
+    fact("multi_tan_tile_argument_order", "`MultiTanProcessor.tile` calls `self._tile_parallel(pio, cli_progress, parallel, **kwargs)`, matching `_tile_parallel(self, pio, cli_progress, parallel, **kwargs)`",
+         _calls(find_def(mt, "MultiTanProcessor.tile"), "_tile_parallel") == ["self._tile_parallel(pio, cli_progress, parallel, **kwargs)"]
+         and [a.arg for a in find_def(mt, "MultiTanProcessor._tile_parallel").args.args] == ["self", "pio", "cli_progress", "parallel"])
+    mw = parse("toasty/multi_wcs.py")
+    fact("multi_wcs_tile_argument_order", "`MultiWcsProcessor.tile` calls `self._tile_parallel(pio, reproject_function, cli_progress, parallel, **kwargs)`, matching the callee's parameters",
+         _calls(find_def(mw, "MultiWcsProcessor.tile"), "_tile_parallel") == ["self._tile_parallel(pio, reproject_function, cli_progress, parallel, **kwargs)"]
+         and [a.arg for a in find_def(mw, "MultiWcsProcessor._tile_parallel").args.args] == ["self", "pio", "reproject_function", "cli_progress", "parallel"])
+    gp = find_def(mt, "MultiTanProcessor.compute_global_pixelization")
+    csub = _calls(gp, "compute_for_subimage")
+    fact("multi_tan_subimage_offsets", "`compute_global_pixelization` derives each input's sub-tiling at `(desc.imin, desc.jmin)` (x offset, then y offset)",
+         len(csub) == 1 and csub[0].replace(" ", "").startswith("self._tiling.compute_for_subimage(desc.imin,desc.jmin,"))
+    wk = find_def(mt, "_mp_tile_worker")
+    fact("multi_tan_worker_updates_into_basis", "the parallel multi-TAN worker merges its piece with `image.update_into_maskable_buffer(basis, …)` inside `pio.update_image(…)`",
+         len(_calls(wk, "update_into_maskable_buffer")) == 1 and not _calls(wk, "fill_into_maskable_buffer") and len(_calls(wk, "update_image")) == 1 and not _calls(wk, "write_image"))
+    # fits_tiler
+    ft = parse("toasty/fits_tiler.py")
+    tt = find_def(ft, "FitsTiler._tile_toast")
+    ctb, ccs = _calls(tt, "toast_base"), _calls(tt, "cascade")
+    loops = [n for n in tt.body if isinstance(n, ast.For) and ast.unparse(n.iter) == "self.coll.images()"]
+    one_loop = [n for n in loops if _calls(n, "toast_base")]
+    fact("tile_toast_filters", "`FitsTiler._tile_toast` samples every image inside the loop that builds that image's footprint filter (`tile_filter=tile_filter`) and cascades under the union of all of them (`tile_filter=tile_filters`)",
+         len(ctb) == 1 and _has_kw(ctb[0], "tile_filter", "tile_filter") and len(ccs) == 1 and _has_kw(ccs[0], "tile_filter", "tile_filters")
+         and len(one_loop) == 1 and "tile_filter = wcs_sampler.filter()" in ast.unparse(one_loop[0]) and "filters.append(tile_filter)" in ast.unparse(one_loop[0]))
+    fact("tile_toast_one_depth", "`_tile_toast` samples every image at the one level `start` decided before the sampling loop",
+         len(ctb) == 1 and ctb[0].replace(" ", "").startswith("self.builder.toast_base(sampler,start,"))
+    # cli
+    c = parse("toasty/cli.py")
+    ci = find_def(c, "cascade_impl")
+    fact("cli_cascade_uses_format", "`toasty cascade` opens the pyramid with the requested format: `PyramidIO(settings.pyramid_dir, default_format=settings.format)`",
+         _calls(ci, "PyramidIO") == ["PyramidIO(settings.pyramid_dir, default_format=settings.format)"])
+    ta = find_def(c, "tile_allsky_impl")
+    want = {"plate-carree": ("plate_carree_sampler", None), "plate-carree-galactic": ("plate_carree_galactic_sampler", None), "plate-carree-ecliptic": ("plate_carree_ecliptic_sampler", None),
+            "plate-carree-planet": ("plate_carree_planet_sampler", "is_planet"), "plate-carree-planet-zeroleft": ("plate_carree_planet_zeroleft_sampler", "is_planet"),
+            "plate-carree-planet-zeroright": ("plate_carree_zeroright_sampler", "is_planet"), "plate-carree-panorama": ("plate_carree_sampler", "is_pano")}
+    got = {}
+    node = next((n for n in ta.body if isinstance(n, ast.If) and "settings.projection ==" in ast.unparse(n.test)), None)
+    while isinstance(node, ast.If) and "settings.projection ==" in ast.unparse(node.test):
+        key = ast.literal_eval(node.test.comparators[0])
+        body_src = [ast.unparse(x) for x in node.body]
+        smp = [re.match(r"sampler = (\w+)\(img\.asarray\(\)\)$", x) for x in body_src]
+        flags = [x.split(" = ")[0] for x in body_src if re.match(r"is_(planet|pano) = True$", x)]
+        got[key] = (next((m.group(1) for m in smp if m), None), flags[0] if len(flags) == 1 else (None if not flags else "?"))
+        node = node.orelse[0] if len(node.orelse) == 1 else None
+    fact("cli_allsky_projection_table", "`toasty tile-allsky`: each `--projection` value builds its own sampler from the input map and sets the planet / panorama flag of its family",
+         got == want and "is_planet=is_planet" in " ".join(_calls(ta, "toast_base")) and "is_pano=is_pano" in " ".join(_calls(ta, "toast_base")))
+    ep = find_def(c, "entrypoint")
+    fact("cli_entrypoint_lets_errors_out", "`entrypoint` has no exception handler around the sub-command: a failure reaches the caller / the exit status",
+         not any(isinstance(n, ast.Try) for n in ast.walk(ep)))
+    vlc = find_def(c, "view_locally")
+    fact("cli_view_passes_paths_through", "`toasty view` loads exactly the user's list of paths: `CollectionLoader.create_from_args(settings).load_paths(settings.paths)`",
+         "coll = CollectionLoader.create_from_args(settings).load_paths(settings.paths)" in ast.unparse(vlc))
+    co = parse("toasty/collection.py")
+    ca = find_def(co, "CollectionLoader.create_from_args")
+    assigned = sorted(set(re.findall(r"loader\.(\w+) =", ast.unparse(ca))))
+    fact("collection_loader_attributes", "`CollectionLoader.create_from_args` sets exactly the attributes `load_paths` reads (`hdu_index`, `wcs_key`, `blankval`)",
+         set(assigned) <= {"hdu_index", "wcs_key", "blankval"} and {"hdu_index", "wcs_key"} <= set(assigned))
+    pc = parse("toasty/pipeline/cli.py")
+    ri = find_def(pc, "refresh_impl")
+    fact("pipeline_refresh_asks_for_index", "`toasty pipeline refresh` treats an image as done only if the store has its `index.wtml`: `check_exists(uniq_id, 'index.wtml')`",
+         "mgr._pipeio.check_exists(uniq_id, 'index.wtml')" in ast.unparse(ri))
+    for name, doc, ok in facts:
+        out += f"/-- {doc} -/\ndef {name} : Bool := {'true' if ok else 'false'}\n\n"
+    out += "end Plumbing\nend Gen\n"
+    return out
+
+
+MODULES["Plumbing"] = gen_plumbing
